@@ -345,7 +345,10 @@ func (b *Builder) Unit(kind hist.UnitKind) hist.Unit {
 	case hist.UnknownStmt:
 		u.SQL = unknownStmts[r.Intn(len(unknownStmts))]
 		u.EndTS = b.TS()
-	case hist.Rotate:
+	case hist.Rotate, hist.Restart:
+		if kind == hist.Restart && r.Bool() {
+			u.EvType = ev.Stop
+		}
 		b.fileNo++
 		u.NextFile = fmt.Sprintf("%s-r%d.%06d", []string{"mysql-bin", "binlog", "a.b.c"}[r.Intn(3)], b.fileNo, r.Intn(1000000))
 		u.EvTS = b.TS()
@@ -379,6 +382,36 @@ func firstWord(s string) string {
 // Add appends a unit of the kind.
 func (b *Builder) Add(kind hist.UnitKind) { b.H.Units = append(b.H.Units, b.Unit(kind)) }
 
+// RebindIDs gives the tables new table ids for the units that follow, the way
+// a restarted server hands out ids from the start again: ids are permuted, so
+// an id announced earlier now names a different table.
+func (b *Builder) RebindIDs() {
+	n := len(b.Tables)
+	if n < 2 {
+		return
+	}
+	nt := make([]*hist.Table, n)
+	for i, t := range b.Tables {
+		c := *t
+		c.ID = b.Tables[(i+1)%n].ID
+		nt[i] = &c
+	}
+	b.Tables = nt
+}
+
+// AddSwitch ends the current file: by a rotation or (one time in three) by a
+// server restart, after which table ids may be bound to other tables.
+func (b *Builder) AddSwitch() {
+	if b.R.Chance(1, 3) {
+		b.Add(hist.Restart)
+		if b.R.Bool() {
+			b.RebindIDs()
+		}
+		return
+	}
+	b.Add(hist.Rotate)
+}
+
 // AllTables lists the tables a mapper must know.
 func (b *Builder) AllTables() []*hist.Table { return b.Tables }
 
@@ -395,7 +428,7 @@ func RandomHistory(r *core.Rng, o HOpts, ntx int, rotations int) (*hist.History,
 	}
 	for i := 0; i < ntx; i++ {
 		if rotAt[i] {
-			b.Add(hist.Rotate)
+			b.AddSwitch()
 			if o.GTID {
 				b.Add(hist.PrevGTIDs)
 			}
@@ -421,7 +454,7 @@ func RandomHistory(r *core.Rng, o HOpts, ntx int, rotations int) (*hist.History,
 		b.Add(k)
 	}
 	if rotAt[ntx] {
-		b.Add(hist.Rotate)
+		b.AddSwitch()
 	}
 	return b.H, b.Tables
 }
